@@ -210,13 +210,18 @@ ConsI == {Con(t, c, k) : t \in Ext3, c \in Cmps, k \in {Num(1, 2), Num(2, 1), Nu
          \cup {Con(B("mul", Num(-1, 1), t), c, Num(-1, 2)) : t \in Ext3, c \in {"le", "ge"}}
          \cup {Con(B("add", t, x), c, Num(1, 1)) : t \in Ext3, c \in {"le", "ge"}}
 ---------------------------------------------------------------------------
-Doms == CASE Family = "A" -> DomsA [] Family = "B" -> DomsB [] Family = "C" -> DomsC [] Family = "D" -> DomsD [] Family = "E" -> DomsE [] Family = "F" -> DomsF [] Family = "I" -> DomsI [] Family \in {"G", "H"} -> DomsG
-Cons == CASE Family = "A" -> ConsA [] Family = "B" -> ConsB [] Family = "C" -> ConsC [] Family = "D" -> ConsD [] Family = "E" -> ConsE [] Family = "F" -> ConsF [] Family = "I" -> ConsI [] Family \in {"G", "H"} -> ConsG
+\* family J: the same three-operand blocks in the OBJECTIVE (alone, minus a variable, negated plus a variable):
+\* an optimum that needs the exact value of the block, with a dominated operand in any position (C02)
+ObjJ == {t : t \in Ext3} \cup {B("sub", t, y) : t \in Ext3} \cup {B("add", B("mul", Num(-1, 1), t), x) : t \in Ext3}
+ConsJ == {Con(B("add", x, y), "le", Num(3, 1)), Con(B("sub", x, zz), "ge", Num(-1, 1))}
+Doms == CASE Family = "A" -> DomsA [] Family = "B" -> DomsB [] Family = "C" -> DomsC [] Family = "D" -> DomsD [] Family = "E" -> DomsE [] Family = "F" -> DomsF [] Family \in {"I", "J"} -> DomsI [] Family \in {"G", "H"} -> DomsG
+Cons == CASE Family = "A" -> ConsA [] Family = "B" -> ConsB [] Family = "C" -> ConsC [] Family = "D" -> ConsD [] Family = "E" -> ConsE [] Family = "F" -> ConsF [] Family = "I" -> ConsI [] Family = "J" -> ConsJ [] Family \in {"G", "H"} -> ConsG
 Pre  == CASE Family = "C" -> BoundRowsC [] OTHER -> {<<>>}
 Objs == CASE Family = "D" -> {<<s, o>> : s \in {"min", "max"}, o \in ObjD}
           [] Family = "C" -> {<<"min", U("abs", x)>>, <<"max", N2("min", x, y)>>, <<"sat", Num(0, 1)>>}
           [] Family = "E" -> {<<"min", U("abs", ax)>>, <<"sat", Num(0, 1)>>}
           [] Family \in {"G", "H"} -> ObjG
+          [] Family = "J" -> {<<s, o>> : s \in {"min", "max"}, o \in ObjJ}
           [] OTHER -> {<<"sat", Num(0, 1)>>}
 MaxCons == CASE Family = "D" -> 2 [] Family = "E" -> 3 [] Family = "H" -> 2 [] OTHER -> 1
 MinCons == CASE Family = "D" -> 0 [] OTHER -> 1
